@@ -1384,7 +1384,7 @@ class ExtendedZoneProcessor: public ZoneProcessor {
      */
     static void normalizeDateTuple(extended::DateTuple* dt) {
       const int16_t kOneDayAsMinutes = 60 * 24;
-      if (dt->minutes <= -kOneDayAsMinutes) {
+      while (dt->minutes < 0) {
         LocalDate ld = LocalDate::forTinyComponents(
             dt->yearTiny, dt->month, dt->day);
         local_date_mutation::decrementOneDay(ld);
@@ -1392,7 +1392,8 @@ class ExtendedZoneProcessor: public ZoneProcessor {
         dt->month = ld.month();
         dt->day = ld.day();
         dt->minutes += kOneDayAsMinutes;
-      } else if (kOneDayAsMinutes <= dt->minutes) {
+      }
+      while (kOneDayAsMinutes <= dt->minutes) {
         LocalDate ld = LocalDate::forTinyComponents(
             dt->yearTiny, dt->month, dt->day);
         local_date_mutation::incrementOneDay(ld);
@@ -1400,8 +1401,6 @@ class ExtendedZoneProcessor: public ZoneProcessor {
         dt->month = ld.month();
         dt->day = ld.day();
         dt->minutes -= kOneDayAsMinutes;
-      } else {
-        // do nothing
       }
     }
 
